@@ -186,6 +186,11 @@ impl TypeCtx {
     fn enter_pure(self) -> Self {
         Self { inside_pure: true, ..self }
     }
+
+    /// A function body is not part of the loops around the function.
+    fn enter_function(self) -> Self {
+        Self { inside_loop: false, ..self }
+    }
 }
 
 impl TypeChecker {
@@ -960,6 +965,7 @@ impl TypeChecker {
                 let (f_ty, ret_ty) = self.type_from_function(ctx, params, ret, *pure)?;
 
                 let ctx = if *pure { ctx.enter_pure() } else { ctx };
+                let ctx = ctx.enter_function();
                 let (actual_ret, implicit_ret) = self.expression_block(*span, body, ctx)?;
                 let actual_ret = if ret.is_void() {
                     let void = Some(self.push_type(Type::Void));
